@@ -21,7 +21,7 @@ import (
 
 func init() {
 	register("C14", propDef{
-		header:     "From KV Require Import Corr.C14.\nOpen Scope string_scope.\n",
+		header:     "From KV Require Import Yaml.NodeApi Corr.C14.\nOpen Scope string_scope.\n",
 		caseType:   "case14",
 		mismatchFn: "mismatches14",
 		run:        runC14,
@@ -1081,7 +1081,7 @@ func genProbes14(g *Rng, full []string) [][]string {
 }
 
 func runC14(r *Run, rng *Rng, tier string) error {
-	nModel, nLaw, nFS, nFSLaw := 1100, 5000, 600, 3000
+	nModel, nLaw, nFS, nFSLaw := 900, 4000, 500, 2500
 	if tier == "thorough" {
 		nModel, nLaw, nFS, nFSLaw = 9000, 100000, 4000, 40000
 	}
@@ -1135,12 +1135,15 @@ func runC14(r *Run, rng *Rng, tier string) error {
 			runOne14(r, genFSCase14(rng.Fork()), true)
 		}
 	}
-	nAPI := 900
+	nAPI := 700
 	if tier == "thorough" {
 		nAPI = 8000
 	}
 	for i := 0; i < nAPI; i++ {
 		runOne14(r, genAPICase14(rng.Fork()), true)
+	}
+	for i := 0; i < 4*nAPI; i++ { // law oracles only
+		runOne14(r, genAPICase14(rng.Fork()), false)
 	}
 	for i := 0; i < nLaw; i++ {
 		g := rng.Fork()
